@@ -46,6 +46,9 @@ def check(case):
             if not isinstance(layout.appears_inverted(h, tr), bool):
                 f.append(('markerless-inverted-type', '%r' % (tr,)))
         return f
+    # documented-pure calls on the same graph first: the diagnostics must not depend on them
+    layout.configure(g, model=m)
+    layout.reconfigure(g, model=m, key=m.canonical_order)
     ctx = layout.node_contexts(g)
     want = [x['ctx'] for x in rd.facts]
     if ctx != want:
